@@ -71,7 +71,8 @@ AsIsTruncV6(v) == <<5, 1, 0, 4>> \o SubSeq(v.addr, 1, 4) \o <<v.port \div 256, v
 \* v.sel: the server's method-selection message ("ok"/"split": no authentication, whole or in two
 \* segments; anything else: another method, no acceptable method, a wrong version)
 \* (every other value - a refusal, another method, a wrong version, and any of these followed by bytes that look like a
-\* selection after all - is not a selection of 'no authentication')
+\* selection after all, and the loss of the connection before or inside the selection message followed by such bytes
+\* (lost_ok, losthalf_ok) - is not a selection of 'no authentication')
 Selected(v) == v.sel \in {"ok", "split", "sync", "coalesced"}     \* "sync": selected from inside the client's own write of the greeting;
 \* "coalesced": the selection and the answer to the request arrive in one segment, and the application writes at once
 Holds(v) ==
